@@ -46,8 +46,8 @@ def main():
             if rc != 0 and (prop, sha) in COMBINED:
                 # a later fix rewrote the same lines: revert that one first, then this one
                 later = COMBINED[(prop, sha)]
-                sh(f"git -C {wt} checkout -q -- .")
-                rc, o = sh(f"git -C {wt} revert --no-commit {later} {sha}")
+                sh(f"git -C {wt} revert --abort; git -C {wt} reset -q --hard")
+                rc, o = sh(" && ".join(f"git -C {wt} revert --no-commit {c}" for c in later.split() + [sha]))
                 f = dict(f, what=f"[reverted together with the later fix {later}, which rewrote the same lines] " + f["what"])
             if rc != 0:
                 rows.append((prop, sha, "could not reverse-apply cleanly", "", f["what"][:90]))
@@ -58,7 +58,8 @@ def main():
             if rcc == 0 and (prop, sha) in SUBSUMED:
                 # a later fix makes this one redundant: the defect only returns when both are reverted
                 later = SUBSUMED[(prop, sha)]
-                sh(f"git -C {wt} checkout -q -- . ; git -C {wt} revert --no-commit {later} {sha}")
+                sh(f"git -C {wt} revert --abort; git -C {wt} reset -q --hard")
+                sh(" && ".join(f"git -C {wt} revert --no-commit {c}" for c in later.split() + [sha]))
                 rc2, oc2 = sh(f"{PY} -u {VERIF}/run.py {prop} --tier quick --no-evidence --jobs 6", env={"VERIF_REPO": wt})
                 first = next((l.strip() for l in oc2.splitlines() if "violation class=" in l), "")
                 res = f"exit 1" if rc2 == 1 else f"exit {rcc}"
